@@ -238,13 +238,17 @@ func (h *RealtimeHandler) HandleParticipantJoin(ctx context.Context, handleFrame
 	h.currentSession = session
 	h.currentParticipant = participant
 
-	h.FeatureFlags.IfNotSet(featureflag.FlagDisableSessionState, func() {
-		respond.Send(&hagallpb.SessionState{
-			Type:             hagallpb.MsgType_MSG_TYPE_SESSION_STATE,
-			Timestamp:        timestamppb.Now(),
-			Participants:     models.ParticipantsToProtobuf(session.GetParticipants()),
-			Entities:         models.EntitiesToProtobuf(session.Entities()),
-			EntityComponents: session.GetEntityComponents().ListAll(),
+	// The state is read and queued while nothing is relayed in the session: what
+	// the newcomer has been relayed before is not newer than the state.
+	session.Exclusive(func(participants []*models.Participant) {
+		h.FeatureFlags.IfNotSet(featureflag.FlagDisableSessionState, func() {
+			respond.Send(&hagallpb.SessionState{
+				Type:             hagallpb.MsgType_MSG_TYPE_SESSION_STATE,
+				Timestamp:        timestamppb.Now(),
+				Participants:     models.ParticipantsToProtobuf(participants),
+				Entities:         models.EntitiesToProtobuf(session.Entities()),
+				EntityComponents: session.GetEntityComponents().ListAll(),
+			})
 		})
 	})
 
